@@ -78,4 +78,28 @@ def tryViaPrelude (fuel : Nat) (branch fromResidual : FnDef) (v : Sem.Val) (s : 
     | .variant "Break" [r] => (callPrelude fuel fromResidual r s1).bind fun res s2 => .sig (.ret res) s2
     | _ => .stuck "ControlFlow"
 
+/-! ### the static rule of `?` (typecheck.rs 1682-1687, error.rs `TriedExpressionAndRetTypeMustMatch`)
+
+error_handling.md: "The enclosing function must return a compatible type"; "`?` works with `option` too, but the
+enclosing function must return an `option`".  Type families as the checker compares them: `option` (any payload),
+`result` with its error type (by name), anything else. -/
+inductive TryFam where
+  | option
+  | result (err : String)
+  | plain
+  deriving DecidableEq, Repr, Inhabited
+
+/-- `e?` with `e` of family `operand` inside a function returning family `ret` is accepted -/
+def tryAccepted (operand ret : TryFam) : Bool :=
+  match operand, ret with
+  | .option, .option => true
+  | .result e, .result e' => e == e'
+  | _, _ => false
+
+/-- runtime values of a family (payloads unconstrained) -/
+def InFam : TryFam → Sem.Val → Prop
+  | .option, v => v = .variant "none" [] ∨ ∃ x, v = .variant "some" [x]
+  | .result _, v => (∃ x, v = .variant "ok" [x]) ∨ ∃ x, v = .variant "err" [x]
+  | .plain, v => v ≠ .variant "none" [] ∧ (∀ x, v ≠ .variant "some" [x]) ∧ (∀ x, v ≠ .variant "ok" [x]) ∧ ∀ x, v ≠ .variant "err" [x]
+
 end Abra.TryLower
